@@ -12,7 +12,7 @@ TB = ('Trusted: Lean 4.33 kernel (axioms propext, Classical.choice, Quot.sound o
 
 CHECKS = {
     'C01': dict(
-        text='Theorems (all signatures, all stores): the positional list handed to the callable is slot by slot the stored value else the default followed by exactly the *args entries (C01_positional_aligned), no value is ever bound to another parameter (C01_never_misbinds), an unset required slot before a set one raises (C01_required_gap_raises). Correspondence: every signature shape with <= 6 named parameters x stored subsets + random edit histories; build binding received by recording callables vs model buildCall and vs the independent direct binding.',
+        text='Theorems (all signatures, all stores): the positional list handed to the callable is slot by slot the stored value else the default followed by exactly the *args entries (C01_positional_aligned), no value is ever bound to another parameter (C01_never_misbinds), an unset required slot before a set one raises (C01_required_gap_raises); keyword part: every keyword passed is a configured argument under its own name with its own value, every keyword-only parameter and **kwargs entry is passed exactly once, and **kwargs reach the callable in the configured (insertion) order (C01_keywords_are_configured, C01_keyword_only_and_kwargs_passed, C01_keyword_order_kept, C01_kwargs_in_configured_order). Correspondence: every signature shape with <= 6 named parameters x stored subsets + random edit histories; build binding received by recording callables vs model buildCall and vs the independent direct binding.',
         note=TB + 'Partial: the full equation buildCall = direct is validated by correspondence, not proved. Hypothesis ViewWF (decidable) checked per generated signature.',
         technique='Lean 4 proof over a hand-written executable model, tied to /repo on every run by differential correspondence (compiled Lean driver vs real code on generated inputs) and regenerated source tables; independent Python oracle searches for failing inputs',
         ref='§4 C01'),
